@@ -388,7 +388,14 @@ def run(tier, seed):
                     rep.check(rid, got == {0: 22, 1: 25}, "min_len is 22 for level 0 and 25 for level 1", l0.file, "recovered %s" % got,
                               function=l0.cname, obj="min_len")
                     f2, e2 = M0.find_fact(("ule", ("bin", "add", ("bind", "m2"), raw_at(21)), raw_at(0)), fs)
-                    rep.check(rid, f2 is not None and e2["m2"] == e["minlen"], "both rules use the same min_len", l0.file, None,
+                    got2 = {}
+                    if f2 is not None:
+                        for s, sf in Fl0.sources(e2["m2"]):
+                            for k in (0, 1):
+                                if M0.find_fact(("eq", hdr_field("header_level", HP), k), sf)[0] is not None:
+                                    got2[k] = const_val(s) if is_const(s) else None
+                    rep.check(rid, f2 is not None and (e2["m2"] == e["minlen"] or got2 == got), "both rules use the same min_len (the same value, or the same per-level constants)", l0.file,
+                              "second rule uses %s" % got2 if f2 is not None else None,
                               function=l0.cname, obj="min_len_same")
         rid = rep.rule("R4b", "level 1: success only if level-0 part, extended-header read and extended-header decode all succeeded", 3)
         l1 = rep.need(rid, mod.fn("decode_level1_header"), "function decode_level1_header")
